@@ -1,10 +1,10 @@
 (** C14 — property theorems.  This file contains nothing but statements closed by [exact]. *)
-From Coq Require Import ZArith List Bool Arith Reals.
+From Coq Require Import ZArith QArith Qreals List Bool Arith Reals.
 From Coquelicot Require Import Complex.
 From KV Require Import Base.Outcome C13.ModelOps C13.ModelEffects C13.ModelDelay C13.ModelTree
      C14.SpecLaws C14.ProofsLaws C14.Signals C14.SpecDelay C14.ProofsDelay
      C14.OpsC C14.SpecSVF C14.ProofsSVF C14.ProofsResponse C14.ProofsEQ C14.ProofsFreqResp
-     C14.SpecFreeverb C14.ProofsFreeverb C14.SpecCompressor C14.ProofsCompressor C14.ProofsDecay.
+     C14.SpecFreeverb C14.ProofsFreeverb C14.SpecCompressor C14.ProofsCompressor C14.ProofsDecay C14.ProofsDelayFx C14.SpecQ.
 From KV Require C13.Run.
 Import ListNotations.
 Open Scope ops_scope.
@@ -320,3 +320,60 @@ Theorem reverb_decay_rate_R :
   (forall r W, 0 <= r < 1 -> 0 <= W -> forall eps, 0 < eps -> exists M, forall m, (M <= m)%nat -> r ^ m * W < eps) /\
   (forall (N : nat) (s : line * R), exists W, 0 <= W /\ bounded N W W s).
 Proof. exact (conj rho_range (conj geometric_vanishes comb_state_bounded)). Qed.
+
+(** Delay WITH feedback effects: for ANY feedback chain that is linear and time-invariant from its initial
+    state (hypotheses stated on the chain as an operator on finite signals), every input, every run length:
+    the wet signal is the sum of the echoes 1 .. K+1 (enough to cover the run), echo k = the input passed k
+    times through the feedback effects and the feedback gain, delayed by k D frames. *)
+Theorem delay_loop_echoes_R :
+  forall (S : Type) (fxstep : S -> frame R -> S * frame R) (s0 : S),
+    (forall xs ys, length xs = length ys -> FX S fxstep s0 (ladd xs ys) = ladd (FX S fxstep s0 xs) (FX S fxstep s0 ys)) ->
+    (forall a xs, FX S fxstep s0 (lscale a xs) = lscale a (FX S fxstep s0 xs)) ->
+    (forall k xs, FX S fxstep s0 (zeros k ++ xs) = zeros k ++ FX S fxstep s0 xs) ->
+    forall (D : nat), (1 <= D)%nat ->
+    forall (g mix : R) (xs : list (frame R)) (K : nat),
+      (length xs <= Datatypes.S K * D)%nat ->
+      snd (run_frames (delay_step S g mix fxstep) (zeros D, s0) xs) =
+      map2 (fun w x => blend w x mix) (echoes_from1 S fxstep s0 D g xs K) xs.
+Proof. exact delay_loop_echoes. Qed.
+
+(** what the echoes are *)
+Theorem delay_echo_definition_R :
+  forall (S : Type) (fxstep : S -> frame R -> S * frame R) (s0 : S) (D : nat) (g : R) (xs : list (frame R)),
+    (forall k, echo S fxstep s0 D g (length xs) xs k =
+               firstn (length xs) (zeros (k * D) ++ lscale (g ^ k) (iterFX S fxstep s0 k xs))) /\
+    iterFX S fxstep s0 0 xs = xs /\
+    (forall k, iterFX S fxstep s0 (Datatypes.S k) xs = FX S fxstep s0 (iterFX S fxstep s0 k xs)) /\
+    echoes_from1 S fxstep s0 D g xs 0 = echo S fxstep s0 D g (length xs) xs 1 /\
+    (forall K, echoes_from1 S fxstep s0 D g xs (Datatypes.S K) =
+               ladd (echoes_from1 S fxstep s0 D g xs K) (echo S fxstep s0 D g (length xs) xs (Datatypes.S (Datatypes.S K)))).
+Proof. exact delay_echo_definition. Qed.
+
+(** The delay effect of the tree with volume / panning / filter / EQ effects in its feedback loop (any number,
+    any order, any parameters): those chains ARE linear and time-invariant, so the echo law holds for them. *)
+Theorem delay_feedback_effects_R :
+  forall (d : nat) (g mix : R) (fx : list (effect R)) (xs : list (frame R)) (K : nat),
+    simple_list fx ->
+    let D := delay_frames d in
+    (length xs <= Datatypes.S K * D)%nat ->
+    snd (run_frames (estep consts_R (EDelay d g mix fx)) (init (EDelay d g mix fx)) xs) =
+    map2 (fun w x => blend w x mix) (fx_wet fx D g xs K) xs.
+Proof. exact delay_fx_echoes. Qed.
+
+(** ... and such chains satisfy the three hypotheses (length-preserving, additive, homogeneous, shift-invariant). *)
+Theorem feedback_chain_is_lti_R :
+  forall fx : list (effect R), simple_list fx ->
+    (forall xs, length (chainFX fx xs) = length xs) /\
+    (forall xs ys, length xs = length ys -> chainFX fx (ladd xs ys) = ladd (chainFX fx xs) (chainFX fx ys)) /\
+    (forall a xs, chainFX fx (lscale a xs) = lscale a (chainFX fx xs)) /\
+    (forall k xs, chainFX fx (zeros k ++ xs) = zeros k ++ chainFX fx xs).
+Proof. exact chainFX_lti. Qed.
+
+(** The rational evaluators used by the correspondence check to validate the harness's reference formulas
+    compute the real / complex prototypes the theorems are about. *)
+Theorem reference_evaluators_correct :
+  (forall m k s, ~ (cq_norm2 (proto_den_Q k s) == 0)%Q ->
+                 toC (H_proto_Q m k s) = H_proto m (Q2R k) (toC s)) /\
+  (forall kind rA Q0 s, (0 < rA)%Q -> (0 < Q0)%Q -> ~ (cq_norm2 (eq_den_Q kind rA Q0 s) == 0)%Q ->
+                        toC (H_eq_proto_Q kind rA Q0 s) = H_eq_proto kind (Q2R (rA * rA)) (Q2R Q0) (toC s)).
+Proof. exact (conj H_proto_Q_correct H_eq_proto_Q_correct). Qed.
